@@ -163,6 +163,9 @@ class _OrbitCorrectionService(_DynamicsServiceBase):
         half_period = float(payload.half_period)
 
         self.domain_obj.dynamics.reset()
+        # The state changes even when the period does not: drop data computed for the old state
+        self.domain_obj.dynamics._trajectory = None
+        self.domain_obj.dynamics._stability_info = None
         self.domain_obj.dynamics._initial_state = x_full
         self.domain_obj.dynamics.period = 2.0 * half_period
 
@@ -649,10 +652,11 @@ class _OrbitDynamicsService(_DynamicsServiceBase):
                 state_vector_cls=SynodicStateVector,
                 frame=ReferenceFrame.ROTATING,
             )
-            self._trajectory = traj
             return traj
 
-        return self.get_or_create(cache_key, _factory)
+        # Also on a cache hit the trajectory just requested is the current one
+        self._trajectory = self.get_or_create(cache_key, _factory)
+        return self._trajectory
 
     def manifold(self, stable: bool = True, direction: Literal["positive", "negative"] = "positive") -> "Manifold":
         """Create a manifold for the orbit.
